@@ -100,9 +100,9 @@ class Pages(Files):
             if stat.S_ISDIR(stat_result.st_mode):
                 try:
                     url = URL(scope=scope)
+                    url = url.replace(scheme="", path=url.path + "/")
                 except ValueError:  # malformed Host header, non-UTF-8 query
                     raise HTTPException(400, content="Malformed request URL") from None
-                url = url.replace(scheme="", path=url.path + "/")
                 return await RedirectResponse(url)(scope, receive, send)
 
         if self.handle_404 is None:
